@@ -704,4 +704,23 @@ theorem varDecl_self_reference :
     simp [shadowD, Allowed]
   simpa using compile_bytes_correct_partial [shadowD] hall (by decide) "f" [.int 3] [] (.int 7) 20 (by rfl) (by decide)
 
+/-- **A statement's Go label is bound before anything of the statement is compiled** (model of
+    generateLabel-before-Walk in ForStmt / SwitchStmt, codegen.go): in `L: for init; cond; post { body }` the init
+    statement is compiled with no label waiting (`nextLabel = none`, so no statement nested in it could take `L`)
+    and the body under the labelList entry named `L`; in `L: switch tag { clauses }` the clause chain is compiled
+    under the entry named `L` with no label waiting.  (Expressions of MiniGo contain no statements; in the real
+    compiler an inlined call in a header does — the dialect generator and the corpus exercise that.) -/
+theorem label_bound_before_parts (cx : Ctx) (lp : LoopCtx) (l : String) (st : St) :
+    (∀ init cond post body,
+      compS cx lp (.labeled l (.loop init cond post body)) st =
+        compS cx lp (.loop init cond post body) { st with nextLabel := some l } ∧
+      (forEnt { st with nextLabel := some l }).name = some l ∧
+      (forSt0 { st with nextLabel := some l }).nextLabel = none) ∧
+    (∀ tag ti cl,
+      compS cx lp (.labeled l (.switchS tag ti cl)) st =
+        compS cx lp (.switchS tag ti cl) { st with nextLabel := some l } ∧
+      (swEnt cx tag ti { st with nextLabel := some l }).name = some l ∧
+      (swSt1 cx tag cl { st with nextLabel := some l }).nextLabel = none) :=
+  ⟨fun _ _ _ _ => ⟨rfl, rfl, rfl⟩, fun _ _ _ => ⟨rfl, rfl, rfl⟩⟩
+
 end NeoModel.C14
